@@ -371,6 +371,16 @@ def run_scenario(sc, scratch):
     except BaseException as e:
         out['init_exc'] = type(e).__name__ + ': ' + str(e)[:100]
         return out
+    decoy = None
+    if getattr(ar, 'is_stack', False):
+        # another stack Array built later in the same process, whose labels are those of `ar` in reverse order after a new one:
+        # each Array answers for its own labels
+        try:
+            with core.quiet():
+                labs = ['decoy_first'] + [str(x) for x in reversed(list(ar.slicelabels))]
+                decoy = emdfile.Array(data=np.zeros((1, 1, len(labs))), name='decoy', slicelabels=labs)
+        except BaseException:
+            decoy = None
     for op in sc['ops']:
         o = {'raised': False}
         try:
@@ -417,7 +427,10 @@ def run_scenario(sc, scratch):
                             o['back_dtype'] = str(back.data.dtype)
                             o['units_equal'] = (back.units == ar.units); o['name_equal'] = (back.name == ar.name)
                             if ar.is_stack and back.is_stack:
-                                o['slices_equal'] = all(data_equal(np.asarray(back[l].data), np.asarray(ar[l].data)) for l in ar.slicelabels)
+                                try:
+                                    o['slices_equal'] = all(data_equal(np.asarray(back[l].data), np.asarray(ar[l].data)) for l in ar.slicelabels)
+                                except BaseException as e:
+                                    o['slices_equal'] = False; o['slices_exc'] = type(e).__name__ + ': ' + str(e)[:80]
                             # second generation (C16)
                             try:
                                 p2 = p + '.2'
